@@ -55,6 +55,7 @@
 //	pool: per token <instance>:<F|D|L><not_early><late2s at hand-out><late2s at Shoot entry / discard report> (L = neither fired nor
 //	      reported; grouped by instance for own schedules, in hand-out order for the shared one), then R=<reports that are
 //	      777/'discarded'> X=<other reports + events outside any token> S=<schedules built>
+//	      E=<discard_overflow off, or engine.Run returned within last start + profile length + 2 s + the longest response (+ margin)>
 //	eng: <F|D><not_early><late2s><sample_ok>            (F fired / D reported as discarded; instant of Shoot entry or of
 //	                                                     the discard report against the token; D: net code 777 + tag)
 //
@@ -889,6 +890,37 @@ func (a *poolAggr) Report(s core.Sample) {
 	}
 }
 
+// profOffsets: the token offsets (ns) a finite profile once.<n> ; const.<ops>.<ms> ; pause.<ms> is configured to have
+func profOffsets(segs string) []int64 {
+	var offs []int64
+	start := int64(0)
+	for _, sg := range strings.Split(segs, ";") {
+		f := strings.Split(sg, ".")
+		at := func(i int) int64 {
+			if i >= len(f) {
+				return 0
+			}
+			v, _ := strconv.ParseInt(f[i], 10, 64)
+			return v
+		}
+		switch f[0] {
+		case "once":
+			for k := int64(0); k < at(1); k++ {
+				offs = append(offs, start)
+			}
+		case "const":
+			ops, dur := at(1), at(2)*ms
+			for k := int64(0); ops > 0 && k < ops*dur/(1000*ms); k++ {
+				offs = append(offs, start+k*(1000*ms/ops))
+			}
+			start += dur
+		case "pause":
+			start += at(1) * ms
+		}
+	}
+	return offs
+}
+
 func parseDurs(s string) [][]int64 {
 	var out [][]int64
 	if s == "-" || s == "" {
@@ -907,6 +939,10 @@ func runPool(fields []string) string {
 	durs := parseDurs(fields[4])
 	if len(spec) < 2 || (spec[:2] != "m:" && spec[:2] != "p:") {
 		return "unknown-case"
+	}
+	poolOffs := profOffsets(spec[2:])
+	if spec[:2] == "m:" {
+		poolOffs = parseList(spec[2:])
 	}
 	mk := func() core.Schedule {
 		if spec[:2] == "m:" {
@@ -938,6 +974,7 @@ func runPool(fields []string) string {
 		rec.t0 = time.Now()
 		startup.Start(rec.t0)
 		err := eng.Run(ctx)
+		ended := time.Since(rec.t0).Nanoseconds()
 		cancel()
 		eng.Wait()
 		rec.mu.Lock()
@@ -959,7 +996,22 @@ func runPool(fields []string) string {
 				obs = append(obs, field(p))
 			}
 		}
-		obs = append(obs, fmt.Sprintf("R=%d X=%d S=%d", rec.okRep, rec.badRep+rec.orphans, rec.scheds))
+		// the run-length bound of the property: enabled => done within 2 s + one response time of the profile's end
+		// (counted from the start of the last instance); a planning margin on top
+		var smax, omax, dmax int64
+		for _, x := range starts {
+			smax = max(smax, x)
+		}
+		for _, x := range poolOffs {
+			omax = max(omax, x)
+		}
+		for _, l := range durs {
+			for _, x := range l {
+				dmax = max(dmax, x)
+			}
+		}
+		inTime := !discard || ended <= smax+omax+window+dmax+margin
+		obs = append(obs, fmt.Sprintf("R=%d X=%d S=%d E=%s", rec.okRep, rec.badRep+rec.orphans, rec.scheds, b(inTime)))
 		rec.mu.Unlock()
 		if disturbances.Load() == before {
 			return strings.Join(obs, " ")
